@@ -62,6 +62,10 @@ class Doc(object):
                 q.append("const")
             if el.attrib.get("volatile") == "yes":
                 q.append("volatile")
+            inner = self.by_id.get(el.attrib["type-id"])
+            if inner is not None and inner.tag == "pointer-type-def":
+                # a qualified pointer is spelled with postfix qualifiers so that it cannot be mistaken for a pointer to a qualified type
+                return self.type_string(el.attrib["type-id"], depth + 1) + " " + " ".join(q)
             return " ".join(q + [self.type_string(el.attrib["type-id"], depth + 1)])
         if t == "array-type-def":
             dims = "".join("[%s]" % s.attrib.get("length") for s in el.findall("subrange"))
